@@ -10,7 +10,8 @@ import common
 import corechecks
 
 THEOREMS = ['C12_phaseMonotone', 'C12_phaseMonotone_exec', 'C12_appendOnly', 'C12_nonempty', 'C12_end', 'C12_storedOnly', 'C12_view', 'C12_toggle', 'C12_roundTrip']
-MODULE = [('NautilusVerif.Properties.C12', THEOREMS), ('NautilusVerif.Properties.CoreRun', ['Run_phase', 'C02_run', 'C12_run_frozen']), ('NautilusVerif.Properties.C05Tie', ['C05_run_skeleton'])]
+MODULE = [('NautilusVerif.Properties.C12', THEOREMS), ('NautilusVerif.Properties.CoreRun', ['Run_phase', 'C02_run', 'C12_run_frozen']), ('NautilusVerif.Properties.C05Tie', ['C05_run_skeleton']),
+          ('NautilusVerif.Properties.CoreTie', ['Core_tie_discardSetter', 'Core_tie_addSamples'])]
 FILES = ['nautilus/sampler.py']
 INVARIANTS = ['shape', 'counts', 'aligned', 'run']
 
@@ -19,7 +20,7 @@ def run(chk):
     chk.extra['source_digest'] = common.source_digest(FILES)
     import gen_c05
     text5, _ = gen_c05.generate(common.REPO)
-    chk.prove(MODULE, None, {'NautilusVerif/Generated/C05.lean': text5})
+    chk.prove(MODULE, None, {'NautilusVerif/Generated/CoreSrc.lean': __import__('gen_core').generate(common.REPO)[0], 'NautilusVerif/Generated/C05.lean': text5})
     if chk.tier == 'thorough':
         chk.leanchecker([m for m, _ in MODULE])
     results = corechecks.run_all(chk.tier, chk.seed)
